@@ -11,6 +11,7 @@ CONSTANTS
   NonceWin = 10
   AgeWin = 10
   MAXV = 1000000000
+  PragueFrom = %(prague)d
   Senders = {%(senders)s}
   Signers = {%(signers)s}
   MaxLen = %(maxlen)d
@@ -20,17 +21,17 @@ CHECK_DEADLOCK FALSE
 """
 
 
-def gen_schedules(name, focus, n, seed, maxlen=40, senders=2, signers=2, workers=4):
+def gen_schedules(name, focus, n, seed, maxlen=40, senders=2, signers=2, workers=4, prague=0):
     """n schedules of `maxlen` calls from the reference machine by TLC simulation."""
     cfg = "_gen_%s.cfg" % name
     with open(os.path.join(SPEC, cfg), "w") as f:
         f.write(GEN_CONSTS % {"senders": ", ".join('"s%d"' % i for i in range(1, senders + 1)),
                               "signers": ", ".join('"k%d"' % i for i in range(1, signers + 1)),
-                              "maxlen": maxlen, "focus": focus})
+                              "maxlen": maxlen, "focus": focus, "prague": prague})
     raw = os.path.join(OUT, "gen_%s.txt" % name)
     per = (n + workers - 1) // workers
-    r = common.tlc("GenRef.tla", cfg, "gen_" + name, workers=workers, timeout=1200, simulate="num=%d" % per,
-                   seed=seed, extra=["-depth", str(maxlen + 5)], stdout_path=raw)
+    r = common.tlc("GenRef.tla", cfg, "gen_" + name, workers=workers, timeout=300, simulate="num=%d" % per,
+                   seed=seed, extra=["-depth", str(maxlen + 5)], stdout_path=raw, xss="512m")
     os.remove(os.path.join(SPEC, cfg))
     if r["violated"] or r["error"]:
         raise ToolError("generator spec failed: %s\n%s" % (r["violated"] or r["error"], common.tlc_tail(r)))
@@ -84,12 +85,15 @@ def play(name, scheds, shards=8, net="regtest", traces="on", light=False, timeou
     return [j[1] for j in jobs], [j[0] for j in jobs], stats
 
 
+VALIDATE_CFG = ["TraceRef.cfg"]
+
 MIS = re.compile(r'^<<"MISMATCH", (\d+), "([^"]+)">>')
 FLAG = re.compile(r'^<<"FLAG", (\d+), "([^"]+)">>')
 REJ = re.compile(r'^<<"REJECTED", (\d+), ')
 
 
-def tlc_validate(trace, name, cfg="TraceRef.cfg", module="TraceRef.tla"):
+def tlc_validate(trace, name, cfg=None, module="TraceRef.tla"):
+    cfg = cfg or VALIDATE_CFG[0]
     r = common.tlc(module, cfg, "tv_" + name, workers=1, timeout=3600, env={"TRACE": trace}, deque=True,
                    xss="1g", xmx="6g")
     out = r["out"]
@@ -162,6 +166,8 @@ def attribute(ev, labels, flags):
             props.add("C08")
         if l in ("ledger-bal", "ledger-supply"):
             props.add("C07")
+        if l == "probe":
+            props.add("C19")
         if l in ("nonces", "cells", "code"):
             props.update(("C06",) if kind not in ("Reorg", "Commit", "Clear", "Restart") else ())
     if not props:
